@@ -10,6 +10,37 @@ use self::dwarf::{AddressSearchPreference, ConvertContext, DEAD_CODE};
 use self::expression::{CodeAddressConverter, CodeAddressGenerator};
 use self::units::DebuggingInformationCursor;
 
+/// Whether `name` is the name of a DWARF section. Those are read into
+/// `ModuleDebugData` and written anew (or dropped) on emission; any other
+/// custom section, even one whose name starts with `.debug`, is kept as is.
+pub(crate) fn is_dwarf_section_name(name: &str) -> bool {
+    const DWARF_SECTIONS: [SectionId; 20] = [
+        SectionId::DebugAbbrev,
+        SectionId::DebugAddr,
+        SectionId::DebugAranges,
+        SectionId::DebugCuIndex,
+        SectionId::DebugFrame,
+        SectionId::DebugInfo,
+        SectionId::DebugLine,
+        SectionId::DebugLineStr,
+        SectionId::DebugLoc,
+        SectionId::DebugLocLists,
+        SectionId::DebugMacinfo,
+        SectionId::DebugMacro,
+        SectionId::DebugPubNames,
+        SectionId::DebugPubTypes,
+        SectionId::DebugRanges,
+        SectionId::DebugRngLists,
+        SectionId::DebugStr,
+        SectionId::DebugStrOffsets,
+        SectionId::DebugTuIndex,
+        SectionId::DebugTypes,
+    ];
+    DWARF_SECTIONS
+        .iter()
+        .any(|id| id.name() == name || id.dwo_name() == Some(name))
+}
+
 /// The DWARF debug section in input WebAssembly binary.
 #[derive(Debug, Default)]
 pub struct ModuleDebugData {
